@@ -26,7 +26,7 @@ from __future__ import annotations
 
 import string
 from enum import Enum
-from typing import Union, MutableSequence
+from typing import Union, MutableSequence, Sequence
 
 
 def escape_quotes(string: str, which_quotes: str | None = None) -> str:
@@ -352,6 +352,18 @@ class SsbOperation:
         if not isinstance(other, self.__class__):
             return False
         return self.offset == other.offset and self.op_code == other.op_code and self.params == other.params
+
+
+def reset_param_indents(routine_ops: Sequence[Sequence[SsbOperation]]) -> None:
+    """
+    Sets the indent of all string parameters back to 0. The indent is only a note of the printer for multi-line output;
+    it must not survive from one decompilation of the ops to the next.
+    """
+    for routine in routine_ops:
+        for op in routine:
+            for param in getattr(op, "params", ()):
+                if hasattr(param, "indent"):
+                    param.indent = 0
 
 
 class SsbOperator(Enum):
